@@ -34,6 +34,8 @@ func runC04(c *Check, tier string) {
 	})
 	// the hit path reads the looked-up result: it must be there
 	ruleSharedMapNotWritten(c, "R04l")
+	ruleNoPoolReentry(c, "R04m")
+	ruleMessagesCarryCopies(c, "R04n")
 	shareRule(c, "R04k", "every path to a cache hit passes the branch on which the looked-up target result is non-nil (the hit path dereferences it on a worker goroutine; same obligation as R13a)", 1, "R13a", func(sub *Check) { ruleR13a(sub, analyseGate(sub, "R13a")) }, func(k string) bool { return strings.Contains(k, "result-found") })
 }
 
@@ -1438,5 +1440,45 @@ func ruleTableInsertAtomic(c *Check, rule string) {
 	}
 	if n == 0 {
 		c.Unknown(rule, "lookup-and-insert-in-one-critical-section", "no insert into a package table found in internal/loading", "-")
+	}
+}
+
+// R04n: what is handed to another goroutine in a message is a copy. The UI goroutine reads the maps inside the
+// messages it receives without any lock; a map that the sender keeps and writes again (a struct field reused
+// between messages) is read and written concurrently: `fatal error: concurrent map iteration and map write`.
+func ruleMessagesCarryCopies(c *Check, rule string) {
+	c.Rule(rule, "every map stored into a field of a console message struct (types named …Msg) is a map made in the same function (a fresh copy), never a field or a parameter the sender keeps using", 1)
+	n := 0
+	for _, fn := range c.P.Funcs {
+		for _, b := range fn.Blocks {
+			for _, in := range b.Instrs {
+				st, ok := in.(*ssa.Store)
+				if !ok {
+					continue
+				}
+				if _, isMap := st.Val.Type().Underlying().(*types.Map); !isMap {
+					continue
+				}
+				fa, ok := st.Addr.(*ssa.FieldAddr)
+				if !ok {
+					continue
+				}
+				tk := engine.TypeKey(fa.X.Type())
+				if !strings.HasPrefix(tk, "console.") || !strings.HasSuffix(tk, "Msg") {
+					continue
+				}
+				n++
+				fresh := true
+				for _, o := range engine.Origins(st.Val) {
+					if mm, ok := o.(*ssa.MakeMap); !ok || mm.Parent() != fn {
+						fresh = false
+					}
+				}
+				c.Require(fresh, rule, "message-carries-copy/"+tk+"/"+c.P.FuncName(fn), "the map in the message is made in this function", "the map put into the message is not a fresh copy (it is kept by the sender, e.g. a field reused between messages): the receiving goroutine iterates it without a lock while the sender writes it again — the runtime aborts the process with `concurrent map iteration and map write`", c.P.InstrPos(st))
+			}
+		}
+	}
+	if n == 0 {
+		c.Unknown(rule, "message-carries-copy", "no map is stored into a console message struct", "-")
 	}
 }
